@@ -4,6 +4,7 @@
   statement about the Rust code and is decided by the correspondence/metamorphic run.
 -/
 import Miden.Lemmas.ExecInv
+import Miden.Lemmas.ClockErasure
 namespace Miden.C14
 open Miden.Vm
 
@@ -178,5 +179,23 @@ theorem exec_deterministic (env : Env) (b : Block) (vm v1 v2 : Vm) (f1 f2 : Nat)
 
 example : (({ stack := List.replicate 16 0, clk := 41 } : Vm).step .clk).toOption.map (·.stack.head!) = some 41 := by
   decide
+
+
+/-! ### The clock is invisible to everything but CLK -/
+
+/-- An operation other than CLK gives the same result at every clock value and decoder history:
+    running it on the re-clocked state is re-clocking its result. -/
+theorem op_result_independent_of_clock (vm : Vm) (op : Op) (c : Nat) (t : List Op) (h : op ≠ .clk) :
+    (vm.reclk c t).step op = (vm.step op).map (fun r => r.reclk c t) :=
+  step_reclk vm op c t h
+
+/-- Executing a span that does not read the clock (SPAN row, batches with RESPAN rows and alignment
+    NOOPs, END row — each row followed by a clock tick and the cycle-limit check) produces, up to clock
+    and decoder history, exactly the state obtained by running its rows without any tick. -/
+theorem span_result_independent_of_clock {env : Env} {fuel : Nat} {ops : List Op} {vm vm' : Vm}
+    (hc : Op.clk ∉ spanRows ops) (h : Vm.exec env (fuel + 1) (.span ops) vm = .ok vm') :
+    ∃ v, runOps (deRespan (spanRows ops)) vm = .ok v ∧ vm' = v.reclk vm'.clk vm'.trace :=
+  exec_span hc h
+
 
 end Miden.C14
